@@ -34,3 +34,23 @@ claim("C03",
       "Decides that remoteWrite=true has a single origin reachable only through HandleMessage/ApproveOrDenyWrite, that for classifier write every effect (store, notification, publication, acknowledgement, approval callback) is preceded on every path by the pass edges of the three authorisation gates read at processing time, that the gates work on the addressed local feature, the looked-up source feature and the command's own function, and that every denied path sends exactly one error result and nothing else. Necessary conditions of the authorisation property; registry value semantics and histories are not decided.",
       "Trusted: go/ssa and call resolution; loops unrolled at most once; the datagram abstraction; HasLocalFeatureRemoteBinding is checked separately (C09-R6).",
       "DESIGN.md §4 C03")
+claim("C07",
+      "lockset critical-section rules + who-may-call/provenance of feature ids + path effect counting + dominance and structural rules",
+      "Decides that the feature-id generator runs only under its lock inside NextFeatureId and that every local feature constructed in the repository draws its id from it, that look-up and creation of a feature are one critical section decided by a (type, role) scan, that AddEntity/RemoveEntity send exactly one detailed-discovery notification with the constant state added/removed (features attached iff added, list updated first), that the discovery reply is assembled unconditionally from the live getters, and that Operations.Information wires the four flags. Necessary conditions; equality of announcements with the configuration over all configurations is not decided.",
+      "Trusted: go/ssa, call resolution; loops unrolled at most once.",
+      "DESIGN.md §4 C07")
+claim("C13",
+      "atomic-consistency and lockset rules + provenance of counters and hash inputs + dominance rules on caching and eviction",
+      "Decides that the message counter is only touched atomically (and is 8-aligned under 32-bit layout), that each of the 5 header builders draws its counter from its own call of the counter function, that only the sender transmits, that Notify caches its datagram under its counter before transmitting, that Request's look-up, transmission and insertion are one critical section with insertion only after a successful transmission and after a bounded eviction, that every inbound reference is cleared before processing, and that the hash covers destination and command. Necessary conditions; LRU retention and collisions are not decided.",
+      "Trusted: go/ssa, go/types sizes for 386, the lrucache library.",
+      "DESIGN.md §4 C13")
+claim("C15",
+      "lockset rules + dominance rules in Publish + retain-predicate truth table + call-graph reachability",
+      "Decides that the handler list is only touched under its lock, that no handler runs while that lock is held, that core-level handlers are called and all others started with go, core level first, over a snapshot copied under the lock, that unsubscribe removes exactly the (level, handler) pair and subscribe de-duplicates atomically, and that no core-level handler type can synchronously reach Publish again. Necessary conditions; exactly-once delivery under concurrent publication is a schedule property and not decided.",
+      "Trusted: go/ssa, call resolution; application handlers are external.",
+      "DESIGN.md §4 C15")
+claim("C16",
+      "lockset critical-section rules (check-then-close, stop/create/spawn) + abstract-domain rule on the ticker period + structural loop rules + path effect counting",
+      "Decides that the stop channel is only touched under its lock, that the running-check deciding the close and the close are one critical section (no double close), that stop, channel creation and goroutine start are one critical section handing the new channel to the goroutine (no leaked stream), that the counter is atomic, that the ticker period is by construction never more than the announced timeout, that the loop has a returning stop case and refreshes through SetData with a fresh counter, and that RemoveEntity stops a present manager. Necessary conditions; periodicity and in-flight refreshes are timing properties and not decided.",
+      "Trusted: go/ssa, time.Ticker.",
+      "DESIGN.md §4 C16")
